@@ -1793,6 +1793,91 @@ type privInfo struct {
 	users []ssa.Instruction
 }
 
+// privateFreeVar: the captured variable behind fv can change, while the closure fv belongs to runs, only through
+// that activation's own stores.  Conditions (checked on SSA): the variable is captured by exactly one closure
+// creation site, that closure value is only deferred or called directly by its creator (never stored or passed, so no
+// callee can re-enter it), the creator only loads/stores the variable, and inside the closure the variable's cell
+// is only loaded from and stored to.
+func privateFreeVar(fv *ssa.FreeVar) bool {
+	fn := fv.Parent()
+	par := fn.Parent()
+	if par == nil {
+		return false
+	}
+	idx := -1
+	for i, x := range fn.FreeVars {
+		if x == fv {
+			idx = i
+		}
+	}
+	if idx < 0 {
+		return false
+	}
+	loadStoreOnly := func(v ssa.Value, skip ssa.Instruction) bool {
+		if v.Referrers() == nil {
+			return false
+		}
+		for _, r := range *v.Referrers() {
+			if r == skip {
+				continue
+			}
+			switch x := r.(type) {
+			case *ssa.DebugRef:
+			case *ssa.UnOp:
+				if x.X != v {
+					return false
+				}
+			case *ssa.Store:
+				if x.Addr != v || x.Val == v {
+					return false
+				}
+			default:
+				return false
+			}
+		}
+		return true
+	}
+	if !loadStoreOnly(fv, nil) {
+		return false
+	}
+	var site *ssa.MakeClosure
+	for _, b := range par.Blocks {
+		for _, ins := range b.Instrs {
+			mc, ok := ins.(*ssa.MakeClosure)
+			if !ok || mc.Fn != ssa.Value(fn) {
+				continue
+			}
+			if site != nil {
+				return false
+			}
+			site = mc
+		}
+	}
+	if site == nil || site.Referrers() == nil {
+		return false
+	}
+	for _, r := range *site.Referrers() {
+		switch x := r.(type) {
+		case *ssa.DebugRef:
+		case *ssa.Defer:
+			if x.Call.Value != ssa.Value(site) {
+				return false
+			}
+		case *ssa.Call:
+			if x.Call.Value != ssa.Value(site) {
+				return false
+			}
+		default:
+			return false
+		}
+	}
+	a, ok := site.Bindings[idx].(*ssa.Alloc)
+	if !ok {
+		return false
+	}
+	return loadStoreOnly(a, site)
+}
+
 // havocAllKeep: forget everything about the heap except the content of this activation's private locals.
 func (ex *Exec) havocAllKeep(h *Heap, guard Term, loop ...*Loop) *Heap {
 	q := ex.q
@@ -1827,6 +1912,16 @@ func (ex *Exec) havocAllKeep(h *Heap, guard Term, loop ...*Loop) *Heap {
 			key := e.memKey(st.Elem())
 			b := slBase(e.vals[v])
 			q.heapSet(nh, key, store(q.heapGet(nh, key), b, sel(q.heapGet(h, key), b)))
+		}
+		for i, fv := range e.fn.FreeVars {
+			if i < len(e.freeVars) && privateFreeVar(fv) {
+				et := fv.Type().(*types.Pointer).Elem()
+				ref := e.freeVars[i]
+				func() {
+					defer func() { recover() }()
+					e.copyObject(ref, et, h, nh)
+				}()
+			}
 		}
 		for v, ref := range e.vals {
 			a, isAlloc := v.(*ssa.Alloc)
